@@ -135,6 +135,7 @@ pub fn run(args: &[String]) -> i32 {
             let mut numbers: Vec<(u32, u64)> = vec![]; // (number, runtime address)
             let mut stops = 0usize;
             let mut removes = 0usize;
+            let (mut signals_sent, mut signal_stops) = (0usize, 0usize);
             let mut started = false;
             let mut failed: Option<String> = None;
             // --- a batch of breakpoint commands
@@ -277,7 +278,31 @@ pub fn run(args: &[String]) -> i32 {
                                     break;
                                 }
                             }
-                            let r = s.dbg.continue_debugee_with_reason();
+                            // every third resume: a signal the program ignores by default (SIGWINCH; reported by the debugger, not quiet)
+                            // is made pending while the thread stands on the breakpoint: the resume is interrupted by its delivery
+                            let with_signal = rng.chance(1, 3);
+                            if with_signal {
+                                let _ = nix::sys::signal::kill(s.pid_now(), nix::sys::signal::Signal::SIGWINCH);
+                                signals_sent += 1;
+                            }
+                            let mut r = s.dbg.continue_debugee_with_reason();
+                            let mut guard = 0;
+                            while let Ok(StopReason::SignalStop(_, _)) = &r {
+                                signal_stops += 1;
+                                guard += 1;
+                                if guard > 6 {
+                                    break;
+                                }
+                                // at a signal stop the text must be the file + the registry's breakpoints as well
+                                if let Ok(p) = patched_addresses(s.pid_now(), &prog.bin) {
+                                    let snap: Vec<u64> = s.dbg.breakpoints_snapshot().iter().map(|v| match v.addr {
+                                        Address::Relocated(r) => r.as_usize() as u64,
+                                        Address::Global(g) => usize::from(g) as u64 + prog.bias,
+                                    }).collect();
+                                    events.push(format!("BObs {} {} true", cf::list(&snap, |a| cf::n(*a as u128)), cf::list(&p, |a| cf::n(*a as u128))));
+                                }
+                                r = s.dbg.continue_debugee_with_reason();
+                            }
                             match stop_of(&r) {
                                 Ok(st) => {
                                     events.push(format!("BRun {}", cf::option(&st, |a| cf::n(*a as u128))));
@@ -309,6 +334,8 @@ pub fn run(args: &[String]) -> i32 {
             }
             *hist.entry(format!("stops:{}", match stops { 0 => "0", 1..=3 => "1-3", 4..=15 => "4-15", _ => "16+" })).or_default() += 1;
             *hist.entry(format!("removes:{}", removes.min(3))).or_default() += 1;
+            *hist.entry(format!("signals_sent_at_stops:{}", signals_sent.min(3))).or_default() += 1;
+            *hist.entry(format!("signal_stops:{}", signal_stops.min(3))).or_default() += 1;
             if samples.len() < 2 && stops >= 2 {
                 samples.push(serde_json::json!({"program_seed": pseed, "stops": stops, "removes": removes, "events": events.iter().take(12).collect::<Vec<_>>()}));
             }
